@@ -135,6 +135,7 @@ func runPullScenario(c *Ctx, cooked bool, nops int) {
 	pseq := map[int]int{} // per-pipe sequence
 	last := map[int]int{} // per-pipe last seq received
 	pending := 0          // injected and not yet received
+	qcap := 128           // current READQ-LEN
 	look := func() {
 		for _, ev := range splitEvents(lastObs(e)) {
 			if ev.kind == "ret" && ev.msg != nil && len(ev.msg) >= 3 {
@@ -186,8 +187,13 @@ func runPullScenario(c *Ctx, cooked bool, nops int) {
 					blocked = true
 				}
 			}
-			if !blocked && pending == 0 {
+			if !blocked && pending <= qcap {
+				// also with messages queued: they move to the new queue as far as it holds them (a shorter queue drops the rest)
 				e.SetOpt(0, mangos.OptionReadQLen, fmt.Sprint(n), n)
+				qcap = n
+				if pending > n {
+					pending = n
+				}
 			}
 		default:
 			e.Send(0, nil, []byte{1})
